@@ -4,7 +4,7 @@
 #      the records (the right pass IS the left pass of the mirrored problem: argument order, interval variables, ...);
 #      without, no right-record field is written or passed.
 
-@contract("pandora.state_machine.PandoraMachine.matching_cost_prepare", props=["C08"])
+@contract("pandora.state_machine.PandoraMachine.matching_cost_prepare", props=["C08", "C01"])
 def _(self, cfg, input_step):
     types(cfg="opaque", input_step="opaque")
     option(glue=True)
@@ -13,7 +13,7 @@ def _(self, cfg, input_step):
     ensures("C08.noright", implies(not right_enabled(), no_right_effect()))
 
 
-@contract("pandora.state_machine.PandoraMachine.matching_cost_run", props=["C08"])
+@contract("pandora.state_machine.PandoraMachine.matching_cost_run", props=["C08", "C01"])
 def _(self, _, __):
     types(_="opaque", __="opaque")
     option(glue=True)
@@ -23,7 +23,7 @@ def _(self, _, __):
     ensures("mask_after_compute", called_before("compute_cost_volume", "cv_masked"))
 
 
-@contract("pandora.state_machine.PandoraMachine.aggregation_run", props=["C08"])
+@contract("pandora.state_machine.PandoraMachine.aggregation_run", props=["C08", "C01"])
 def _(self, cfg, input_step):
     types(cfg="opaque", input_step="opaque")
     option(glue=True)
@@ -32,7 +32,7 @@ def _(self, cfg, input_step):
     ensures("C08.noright", implies(not right_enabled(), no_right_effect()))
 
 
-@contract("pandora.state_machine.PandoraMachine.semantic_segmentation_run", props=["C08"])
+@contract("pandora.state_machine.PandoraMachine.semantic_segmentation_run", props=["C08", "C01"])
 def _(self, cfg, input_step):
     types(cfg="opaque", input_step="opaque")
     option(glue=True)
@@ -40,7 +40,7 @@ def _(self, cfg, input_step):
     ensures("C08.equivariant", implies(right_enabled(), swap_closed()))
 
 
-@contract("pandora.state_machine.PandoraMachine.optimization_run", props=["C08"])
+@contract("pandora.state_machine.PandoraMachine.optimization_run", props=["C08", "C01"])
 def _(self, cfg, input_step):
     types(cfg="opaque", input_step="opaque")
     option(glue=True)
@@ -48,16 +48,7 @@ def _(self, cfg, input_step):
     ensures("C08.equivariant", implies(right_enabled(), swap_closed()))
 
 
-@contract("pandora.state_machine.PandoraMachine.disparity_run", props=["C08"])
-def _(self, cfg, input_step):
-    types(cfg="opaque", input_step="opaque")
-    option(glue=True)
-    raises_never()
-    ensures("C08.equivariant", implies(right_enabled(), swap_closed()))
-    ensures("C08.noright", implies(not right_enabled(), no_right_effect()))
-
-
-@contract("pandora.state_machine.PandoraMachine.filter_run", props=["C08"])
+@contract("pandora.state_machine.PandoraMachine.disparity_run", props=["C08", "C01"])
 def _(self, cfg, input_step):
     types(cfg="opaque", input_step="opaque")
     option(glue=True)
@@ -66,7 +57,7 @@ def _(self, cfg, input_step):
     ensures("C08.noright", implies(not right_enabled(), no_right_effect()))
 
 
-@contract("pandora.state_machine.PandoraMachine.refinement_run", props=["C08"])
+@contract("pandora.state_machine.PandoraMachine.filter_run", props=["C08", "C01"])
 def _(self, cfg, input_step):
     types(cfg="opaque", input_step="opaque")
     option(glue=True)
@@ -75,7 +66,16 @@ def _(self, cfg, input_step):
     ensures("C08.noright", implies(not right_enabled(), no_right_effect()))
 
 
-@contract("pandora.state_machine.PandoraMachine.validation_run", props=["C08"])
+@contract("pandora.state_machine.PandoraMachine.refinement_run", props=["C08", "C01"])
+def _(self, cfg, input_step):
+    types(cfg="opaque", input_step="opaque")
+    option(glue=True)
+    raises_never()
+    ensures("C08.equivariant", implies(right_enabled(), swap_closed()))
+    ensures("C08.noright", implies(not right_enabled(), no_right_effect()))
+
+
+@contract("pandora.state_machine.PandoraMachine.validation_run", props=["C08", "C01"])
 def _(self, cfg, input_step):
     # left is checked against right, then right against the (flag-updated) left by the same call with the records
     # exchanged; filling is applied to both.  (That checking does not alter disparities -- so that the sequential order
@@ -84,9 +84,12 @@ def _(self, cfg, input_step):
     option(glue=True)
     raises_never()
     ensures("C08.equivariant", implies(right_enabled(), swap_closed()))
+    # both maps are cross-checked against the RAW other map: no filling happens before the second check (otherwise the right
+    # products would depend on the filled left map and the mirror symmetry is lost)
+    ensures("C08.check_before_fill", not called_before("interpolated_disparity", "disparity_checking"))
 
 
-@contract("pandora.state_machine.PandoraMachine.run_multiscale", props=["C08"])
+@contract("pandora.state_machine.PandoraMachine.run_multiscale", props=["C08", "C01"])
 def _(self, cfg, input_step):
     types(cfg="opaque", input_step="opaque")
     option(glue=True)
@@ -94,7 +97,7 @@ def _(self, cfg, input_step):
     ensures("C08.equivariant", implies(right_enabled(), swap_closed()))
 
 
-@contract("pandora.state_machine.PandoraMachine.cost_volume_confidence_run", props=["C08", "C12"])
+@contract("pandora.state_machine.PandoraMachine.cost_volume_confidence_run", props=["C08", "C12", "C01"])
 def _(self, cfg, input_step):
     types(cfg="opaque", input_step="str")
     cases(input_step=["cost_volume_confidence", "cost_volume_confidence.amb"])
@@ -108,7 +111,7 @@ def _(self, cfg, input_step):
 
 
 # ------------------------------------------------------------------------------------------------ preparation
-@contract("pandora.state_machine.PandoraMachine.run_prepare", props=["C08"])
+@contract("pandora.state_machine.PandoraMachine.run_prepare", props=["C08", "C01"])
 def _(self, cfg, left_img, right_img, scale_factor, num_scales):
     # C08.init: when the right interval is not given it is the mirrored left one (-max, -min), single scale or pyramid;
     # both output datasets start empty
